@@ -38,6 +38,7 @@ from vlib.jobs import Job  # noqa: E402
 import threading  # noqa: E402
 
 _ABORT = threading.Event()
+_DEADLINE = [0.0]  # thorough tier: jobs not STARTED by then are reported as not run (inconclusive), see main()
 _PROCS = set()
 
 
@@ -54,6 +55,10 @@ def _run_worker(module, job, twin):
         cmd = [PY, os.path.join(VERIF, "vlib", "z3worker.py"), module, job.fn, json.dumps(job.part), str(job.timeout)]
         hard = job.timeout * 1.5 + 60
     t0 = time.time()
+    if _DEADLINE[0] and t0 > _DEADLINE[0]:
+        out = {"status": "UNKNOWN", "error": "not run: the wall-clock budget of this tier was used up", "detail": "not run (budget)", "messages": []}
+        out["wall_s"], out["twin"], out["key"] = 0.0, twin, job.key
+        return out
     if _ABORT.is_set():
         out = {"status": "UNKNOWN", "error": "skipped (fail-fast)", "messages": []}
         out["wall_s"], out["twin"], out["key"] = 0.0, twin, job.key
@@ -219,6 +224,16 @@ def main():
     if args.sample:
         jobs = jobs[:: args.sample]
         args.no_evidence = True
+    if tier == "thorough":
+        # the thorough plans are as deep as they could be made, not as deep as fits an afternoon: jobs are started in a seed-determined
+        # shuffled order (so that a budget cut thins every partition evenly) and jobs not started within XSV_BUDGET_S (default 45 min) are
+        # reported as inconclusive "not run (budget)"; XSV_BUDGET_S=0 removes the limit
+        import random
+
+        budget = float(os.environ.get("XSV_BUDGET_S", "2700"))
+        random.Random(int(os.environ.get("VERIF_SEED", "1") or 1)).shuffle(jobs)
+        if budget > 0:
+            _DEADLINE[0] = time.time() + budget
 
     pending_errors = []
     results, twins = {}, {}
